@@ -37,7 +37,7 @@ CHECKS["C01"] = {
     "design_ref": "DESIGN.md section 4 C01",
     "technique": "TLC-enumerated hostile messages (EncGen states: valid and invalid boundary placements of every pointer kind) + schema-directed and seeded byte-level variants, replayed through every read-side consumer; oracle = no panic / no fatal error / no hang / no slice outside the segments",
     "text": "The same TLC-generated message space as C03 (which contains one message per branch of the spec's pointer-resolution case analysis, taken and not taken), each in ~7 variants, is pushed through accessor walk, Equal, Canonicalize, deep copy, text.Marshal under 10 schema types and pogs.Extract, with default limits and with a 2^40 traversal budget; panics are recovered and reported, fatal errors (stack overflow) are found by bisecting the dying driver, hangs by a watchdog.",
-    "note": "No value oracle (that is C03). Exhaustive only within the EncGen bounds; arbitrary bit patterns are sampled (seeded). Messages containing a list of > 2^20 elements are not run with the 2^40 budget (work legitimately proportional to T).",
+    "note": "No value oracle (that is C03). Exhaustive only within the EncGen bounds; arbitrary bit patterns are sampled (seeded). Messages containing a list of > 2^20 elements are not run with the 2^40 budget (work legitimately proportional to T). Session 4: degenerate framings (first segment without a root word) are part of the EncGen families; a schema-directed family (populated PlaneBase / Z / Aircraft / HoldsText values with every word in turn replaced by four boundary patterns) goes through the same consumers.",
 }
 
 CHECKS["C04"] = {
@@ -106,7 +106,7 @@ CHECKS["C10"] = {
     "design_ref": "DESIGN.md section 4 C10, Appendix C, Appendix I",
     "technique": "implementation-shaped TLA+ model of capability.go model-checked over all interleavings (design); property-level TLA+ spec ClientRefAbs used as trace specification: real multi-threaded executions under a gate scheduler at verif yield points are validated by TLC (linearisation points inferred)",
     "text": "ClientRef (one action per critical section) is checked by TLC for 2-3 threads: no deadlock, no double close, no Shutdown while referenced or during a call, exact counts at quiescence; the variant with the unrepaired reference transfer must violate NoShutWhileReferenced (control). Binding: ~240 (quick) programs of two and three threads (hand-picked race programs explored with a 1500 / 20000 schedule budget, among them the last Release of a promised client waiting for a call while another thread fulfils the promise, and two references to the promise used by different threads) over AddRef/Release/Call/IsValid/WeakRef/WeakClient.AddRef/Fulfill are run on real Clients with instrumented hooks; schedules are enumerated depth-first at 16 yield points (before every lock acquisition / channel wait in capability.go, inside the hook's Send, at call boundaries); ~9k execution traces per run are accepted only if TLC finds a linearisation satisfying ClientRefAbs (Shutdown at most once, only with no live reference denoting the hook after following resolutions and no call inside, calls delivered to the denoted hook, results, obligations at quiescence).",
-    "note": "Schedules are bounded (<= 40/300 per generated program, 1500/20000 per hand-picked race program). A worker that does not reach a yield point within 3 ms is treated as blocked (affects exploration only). The documented guarantee that Fulfill returns after the promise hook's Shutdown is not part of the property and is checked at quiescence only.",
+    "note": "Schedules are bounded (<= 40/300 per generated program, 1500/20000 per hand-picked race program). A worker that does not reach a yield point within 3 ms is treated as blocked (affects exploration only). The documented guarantee that Fulfill returns after the promise hook's Shutdown is not part of the property and is checked at quiescence only. Session 4: race programs in which the last reference is dropped through the promised client, untouched since Fulfill, while a call is inside the target.",
 }
 CHECKS["C11"] = {
     "engine": "tlc",
@@ -114,7 +114,7 @@ CHECKS["C11"] = {
     "design_ref": "DESIGN.md section 4 C11, Appendix M",
     "technique": "implementation-shaped TLA+ model of answer.go + proxy hook (design, with unrepaired variants as controls); property-level trace spec PromiseAbs validated by TLC on real executions under the gate scheduler; deadlocks reported from goroutine dumps with a frame signature",
     "text": "Programs (a resolver thread: Fulfill/Reject/Join, chains of three promises joined leaf first and root first; caller threads: pipelined calls on two paths, repeated Future.Client, calls through pipelined clients, Struct/Done/ReleaseClients) run on real Promises with an instrumented pipeline caller and result capability; schedules enumerated at the yield points of answer.go and capability.go. TLC accepts a trace only if every call is delivered exactly once to the destination determined at its linearisation point (pipeline caller of the chain's last promise before resolution, else the capability at that path, else failure), resolution waits for calls handed to the pipeline caller, waiters return only after resolution, and a pipelined client may fail as released only after ReleaseClients was called on every promise sharing its outcome. An execution in which no worker can move for 1 s is reported with the library frames it is stuck in.",
-    "note": "Known finding D17 (deadlock between resolve and a call through a pipelined client) is listed in known_findings.json by its frame signature. Borrowed clients may fail once every promise of their join chain has been asked to release them (never earlier).",
+    "note": "Known finding D17 (deadlock between resolve and a call through a pipelined client) is listed in known_findings.json by its frame signature. Borrowed clients may fail once every promise of their join chain has been asked to release them (never earlier). Session 4: PromiseAbs distinguishes handles made before resolution: usable until every promise of the join component was released, unusable afterwards (chains released in every order, one promise asked twice).",
 }
 CHECKS["C12"] = {
     "engine": "tlc",
@@ -139,7 +139,7 @@ CHECKS["C07"] = {
     "design_ref": "DESIGN.md section 0.2 / 4 C07, Appendix D",
     "technique": "same scripts, driver and trace specification as C06; the reference-counting rules of RpcTrace decide: wire counts derived from descriptors sent, Release and Finish(releaseResultCaps); holders of each instrumented capability; Shutdown only when nothing holds it and by the next quiescent point; Release of imports with the exact count once no local reference is live; everything shut down exactly once after Close",
     "text": "Local capabilities are server.Server instances with a Shutdowner that logs; the application returns fresh capabilities in results (the connection then owns the only reference), so the instant at which each must be shut down is determined by the wire history: Finish of the answer that returned it, Release messages, releaseResultCaps (before or after the Return), Close. Imports arrive as call parameters and as the local Bootstrap result; their Release must carry the number of descriptors received. Local calls carry capabilities of this vat in their parameters: the export gains a wire reference per descriptor and loses it by Release or by a Return with releaseParamCaps. Method bodies cancelled by Close may complete with a new capability (a-oncancel), which must be released before Close returns.",
-    "note": "One capability per call / result (several descriptors of one export in one message are not generated).",
+    "note": "One capability per call / result (several descriptors of one export in one message are not generated). Session 4: RpcWindow W11 (the Release of an import is held inside the transport while the Return of an outstanding Bootstrap brings a new reference to it).",
 }
 CHECKS["C08"] = {
     "engine": "tlc",
@@ -147,7 +147,7 @@ CHECKS["C08"] = {
     "design_ref": "DESIGN.md section 0.2 / 4 C08",
     "technique": "TLC-enumerated scripts (8 well-formed prefixes x 44 hostile message kinds x probe x Close once/twice) replayed against a real Conn; process survival + RpcEndState trace specification (allowed reaction, no send after close, local calls resolve, Close returns, Done closes, locks free, capabilities released) + RpcSync trace specification over the recorded sender-lock / task / shutdown events of every connection (projection of the lock model RpcLocks.tla, see C09)",
     "text": "Hostile kinds cover the id spaces and unions of rpc.capnp: unknown / reused ids in Call, Bootstrap, Finish (twice), Release (unknown, too many), Return, Disembargo; capability descriptors naming no export or using receiverAnswer / thirdPartyHosted / unknown members; unknown members of Message, MessageTarget, Return, Disembargo.context, PromisedAnswer.Op; sendResultsTo.yourself; null params / target; Resolve / Provide / Accept / Join; Abort; empty message; a call addressed to its own answer; capability tables whose first entry is a good new import and whose second is bad (calls and Returns); undeliverable calls that carry a capability; Returns for unknown questions with capabilities. A panic in a library goroutine kills the driver and is attributed to the running script.",
-    "note": "Byte-level corruption of a stream transport is not part of this check (C01 covers hostile bytes at the message level).",
+    "note": "Byte-level corruption of a stream transport is not part of this check (C01 covers hostile bytes at the message level). Session 4: prefix with a local call parked while it builds its parameters + Returns for predictable question ids; the synchronisation history of every connection is validated against RpcSync.",
 }
 CHECKS["C09"] = {
     "engine": "tlc",
@@ -164,7 +164,7 @@ CHECKS["C15"] = {
     "design_ref": "DESIGN.md section 0 (C15/C19/C20), section 4 C15",
     "technique": "TLA+ layout semantics (Layout.tla: SetField/GetField of a field descriptor on the bytes of a struct) as a trace specification; TLC generates the schemas (SchemaGen.tla: every field kind x default x union/group membership x alignment situation, layout consistency checked as an invariant); capnpc-go built from the working tree generates code for them and for the stored requests, the code is compiled and every generated accessor is called through reflection; TLC judges every recorded before/after byte image",
     "text": "For 7035 TLC-generated struct layouts (quick: every 8th, thorough: every 3rd, rotating with the seed) plus the repository's stored requests (aircraft, rpc, group, util; scopes generated only): the generator succeeds, its output is byte-identical across 4-13 runs and compiles; for every struct and every field (descending into groups) the setter is called with boundary values on all-zero and all-one backgrounds with marker pointers in every slot and the after-image must equal SetField(before) exactly; getters must return GetField on patterned bytes; New/Set/Has of pointer fields may change only their slot and the discriminant; getters and Has of an inactive union member must refuse; Which reads the declared discriminant; allocated sizes equal the node's; a struct / list field with a null slot reads as that field's own default (also when another member of the union shares the slot with a different default).",
-    "note": "Schemas come from SchemaGen (filler, tested field of every kind with zero / non-zero default - struct and list defaults included -, plain / union / group / group-in-union / two union members sharing one slot, groups with up to four fields, follower) and the stored requests; interface (capability) typed fields are generated and compiled but their setters are not called. Trusted: TLC, Layout.tla as a reading of the schema language's field descriptors, harness/reqgen (builds the CodeGeneratorRequest from TLC's layouts).",
+    "note": "Schemas come from SchemaGen (filler, tested field of every kind with zero / non-zero default - struct and list defaults included -, plain / union / group / group-in-union / two union members sharing one slot, groups with up to four fields, follower) and the stored requests; interface (capability) typed fields are generated and compiled but their setters are not called. Trusted: TLC, Layout.tla as a reading of the schema language's field descriptors, harness/reqgen (builds the CodeGeneratorRequest from TLC's layouts). Session 4: generated list fields rotate through 14 element types (void included); size-boundary structs (8191 / 8192 / 8193 / 65535 data words, 65535 pointers) have their allocation size judged.",
 }
 CHECKS["C19"] = {
     "engine": "tlc",
@@ -180,7 +180,7 @@ CHECKS["C20"] = {
     "design_ref": "DESIGN.md section 0 (C15/C19/C20), section 4 C20",
     "technique": "TLA+ specification of text-format string literals (StrQuoteCore: reader Unquote; design check Unquote(SpecQuote(s)) = s) + TLC-generated byte strings over class representatives; code->spec trace validation (TextTrace): every literal the real code produced is well formed and denotes its value, every field token equals the generated accessor's value, the text of a value is the same after any number of prior Encodes",
     "text": "Every byte string of <= 3 (quick) / 4 (thorough) bytes over 10 class representatives plus every single byte, through strquote.Append and as Text, List(Text) element and Data of rendered structs; struct samples with boundary numbers, enums, booleans, unions; a long-lived Encoder re-renders a probe set after 1, 10, 1000 and every 1/16 of 200000 (quick) / 2000000 (thorough) prior Encodes; every struct type of the TLC-generated schemas (groups with several fields followed by parent fields, unions, defaults) is rendered with each field set to boundary values, on a fresh encoder and on one encoder shared by all types, every shown field compared with the generated getter and every expected field required to be present.",
-    "note": "The harness tokenizer of the text format is trusted to split fields; literals themselves are judged by TLC.",
+    "note": "The harness tokenizer of the text format is trusted to split fields; literals themselves are judged by TLC. Session 4: primitive-list members (Float64 / Float32 with inf, -inf, nan; Int64; Bool; UInt8) judged token by token.",
 }
 
 NOT_APPLICABLE = {
